@@ -34,9 +34,11 @@ ErrAgree(run, E, nexp) == run.exc = E.err /\ Len(run.ys) = nexp
 
 -----------------------------------------------------------------------------
 (* Known findings: a deviation set explains a run when the specification   *)
-(* with exactly these deviations switched on predicts the run completely   *)
-(* (yields, copies, exception and its place).  The tags of a failing run   *)
-(* are the findings of a smallest explaining set; none if there is none.   *)
+(* with exactly these deviations switched on predicts completely what the  *)
+(* clause looks at (exception and its place, and all yields: as yielded,   *)
+(* or the copies for C15_CopiesIndependent).  The tags of a failing clause *)
+(* of a run are the findings of a smallest explaining set; none if there   *)
+(* is none.                                                                *)
 KfOf(dev) == CASE dev = "restore" -> "KF-C15-1"
                [] dev = "order" -> "KF-C15-2"
                [] dev = "rel" -> "KF-C15-3"
@@ -48,14 +50,13 @@ Relevant(toks, abi) ==
   \cup (IF abi.order = "big" /\ HasOp(toks, "escape") THEN {"order"} ELSE {})
   \cup (IF abi.name \in {"arm64-elf", "mips32-elf"} /\ HasOp(toks, "startproc") THEN {"retcol"} ELSE {})
 VOf(S) == [d \in DevNames |-> d \in S]
-Explains(toks, abi, run, S) ==
+\* which = "cp": the clause looks at the copies; otherwise at the states as yielded
+Explains(toks, abi, run, S, which) ==
   LET EV == CfiRunV(toks, abi, VOf(S))
-      exp == CanonYs(EV.ys)
   IN  /\ run.exc = EV.err
-      /\ ObsNow(run) = exp
-      /\ ObsCp(run) = exp
-KfTagsRun(toks, abi, run) ==
-  LET ok == {S \in (SUBSET Relevant(toks, abi)) \ {{}} : Explains(toks, abi, run, S)}
+      /\ (IF which = "cp" THEN ObsCp(run) ELSE ObsNow(run)) = CanonYs(EV.ys)
+KfTagsRun(toks, abi, run, which) ==
+  LET ok == {S \in (SUBSET Relevant(toks, abi)) \ {{}} : Explains(toks, abi, run, S, which)}
   IN  IF ok = {} THEN {}
       ELSE LET S == CHOOSE S \in ok : \A T \in ok : Cardinality(S) <= Cardinality(T)
            IN  {KfOf(d) : d \in S}
@@ -63,7 +64,18 @@ KfTagsRun(toks, abi, run) ==
 FirstDiff(obs, exp) ==
   LET I == {i \in 1..Len(obs) : i > Len(exp) \/ obs[i] # exp[i]}
   IN  IF I = {} THEN Len(obs) + 1 ELSE CHOOSE i \in I : \A j \in I : i <= j
-At(s, i) == IF i \in DOMAIN s THEN <<s[i]>> ELSE <<>>
+\* the first component in which an observed yield differs from the expected one
+StateFields == <<"retcol", "pers", "lsda", "cur", "init", "stack">>
+YieldDiff(obs, exp, i) ==
+  IF i \notin DOMAIN obs THEN [field |-> "(missing yield)", exp |-> exp[i].st, obs |-> <<>>]
+  ELSE IF i \notin DOMAIN exp THEN [field |-> "(extra yield)", exp |-> <<>>, obs |-> obs[i].st]
+  ELSE IF <<obs[i].blk, obs[i].off>> # <<exp[i].blk, exp[i].off>>
+       THEN [field |-> "(position)", exp |-> <<exp[i].blk, exp[i].off>>, obs |-> <<obs[i].blk, obs[i].off>>]
+  ELSE IF ~(obs[i].st.proc /\ exp[i].st.proc)
+       THEN [field |-> "proc", exp |-> exp[i].st.proc, obs |-> obs[i].st.proc]
+  ELSE LET F == {k \in DOMAIN StateFields : obs[i].st[StateFields[k]] # exp[i].st[StateFields[k]]}
+           k == CHOOSE k \in F : \A j \in F : k <= j
+       IN  [field |-> StateFields[k], exp |-> exp[i].st[StateFields[k]], obs |-> obs[i].st[StateFields[k]]]
 
 (* Judgement of one run. *)
 Judge(toks, run) ==
@@ -80,14 +92,18 @@ Judge(toks, run) ==
       errtypes == ErrAgree(run, E, Len(exp))
       completes == run.exc = ""
       bad == dom /\ ~(states /\ copies /\ (illformed => errtypes) /\ (wellformed => completes))
-      k == IF states THEN FirstDiff(cp, exp) ELSE FirstDiff(now, exp)
+      MkDiff(obs, which) ==
+        LET k == FirstDiff(obs, exp)
+        IN  [abi |-> run.abi, exc |-> run.exc, spec_err |-> E.err,
+             yields |-> <<Len(run.ys), Len(exp)>>, at |-> k, which |-> which,
+             d |-> IF k > Len(exp) /\ k > Len(obs) THEN <<>> ELSE <<YieldDiff(obs, exp, k)>>]
   IN  [abi |-> run.abi, dom |-> dom, illformed |-> illformed, wellformed |-> wellformed,
        states |-> states, copies |-> copies, errtypes |-> errtypes, completes |-> completes,
-       tags |-> IF bad THEN KfTagsRun(toks, abi, run) ELSE {},
-       diff |-> IF bad THEN [abi |-> run.abi, exc |-> run.exc, spec_err |-> E.err,
-                             yields |-> <<Len(run.ys), Len(exp)>>, at |-> k,
-                             exp |-> At(exp, k), now |-> At(now, k), cp |-> At(cp, k)]
-                ELSE <<>>]
+       tags |-> IF bad /\ ~(states /\ (illformed => errtypes) /\ (wellformed => completes))
+                THEN KfTagsRun(toks, abi, run, "now") ELSE {},
+       tagscp |-> IF dom /\ ~copies THEN KfTagsRun(toks, abi, run, "cp") ELSE {},
+       diff |-> IF bad THEN MkDiff(now, "yielded") ELSE <<>>,
+       diffcp |-> IF dom /\ ~copies THEN MkDiff(cp, "copy") ELSE <<>>]
 
 Verdict(t) ==
   LET js == [i \in DOMAIN t.runs |-> Judge(t.toks, t.runs[i])]
@@ -104,12 +120,14 @@ Verdict(t) ==
       BadRuns(name) == {i \in DOMAIN js : Dom(name, js[i]) /\ ~Holds(name, js[i])}
       indom == SelectSeq(names, InDom)
       bad == SelectSeq(names, LAMBDA nm : BadRuns(nm) # {})
-      Tags(name) == IF \E i \in BadRuns(name) : js[i].tags = {} THEN {}
-                    ELSE UNION {js[i].tags : i \in BadRuns(name)}
-      Diffs(name) == LET un == {i \in BadRuns(name) : js[i].tags = {}}
+      TagsOf(name, j) == IF name = "C15_CopiesIndependent" THEN j.tagscp ELSE j.tags
+      Tags(name) == IF \E i \in BadRuns(name) : TagsOf(name, js[i]) = {} THEN {}
+                    ELSE UNION {TagsOf(name, js[i]) : i \in BadRuns(name)}
+      Diffs(name) == LET un == {i \in BadRuns(name) : TagsOf(name, js[i]) = {}}
                          pool == IF un # {} THEN un ELSE BadRuns(name)
                          i == CHOOSE i \in pool : \A k \in pool : i <= k
-                     IN  [runs |-> {js[k].abi : k \in BadRuns(name)}, first |-> js[i].diff]
+                     IN  [runs |-> {js[k].abi : k \in BadRuns(name)},
+                          first |-> IF name = "C15_CopiesIndependent" THEN js[i].diffcp ELSE js[i].diff]
       unsupported == {js[i].abi : i \in {k \in DOMAIN js : ~js[k].dom}}
       excs == [i \in DOMAIN t.runs |-> t.runs[i].exc]
   IN  [id |-> t.id,
